@@ -107,6 +107,7 @@ var c16FlatTrans = color.RGBA{0x40, 0x20, 0x10, 0x80}
 
 var c16Palette = func() [64]color.RGBA {
 	p := ivg.DefaultPalette
+	p[1] = color.RGBA{0x80, 0x80, 0x80, 0x80} // translucent and one-byte encodable, below entries that need three bytes
 	p[3] = c16FlatOpaque
 	p[7] = color.RGBA{0x80, 0x40, 0x20, 0xff}
 	return p
@@ -125,12 +126,11 @@ func c16Fill(d ivg.Destination, fill int, indirect bool, s float32) {
 		}
 	case 1:
 		if indirect {
-			// blend of transparent (0x7f) and palette[7] with t = 0x80 -> computed by the reference formula
-			// 80:80:80:80 blended with palette[7] at t=0x40: every channel depends on the +128 rounding term
-			d.SetCReg(0, false, ivg.BlendColor(0x40, 0x7e, 0x87))
+			// palette[1] = 80:80:80:80 blended with palette[7] at t=0x40: every channel depends on the +128 rounding term
+			d.SetCReg(0, false, ivg.BlendColor(0x40, 0x81, 0x87))
 		} else {
 			pal := c16Palette
-			c := ref.Color3Indirect(0x40, 0x7e, 0x87).Resolve(&pal, &pal)
+			c := ref.Color3Indirect(0x40, 0x81, 0x87).Resolve(&pal, &pal)
 			d.SetCReg(0, false, ivg.RGBAColor(c))
 		}
 	case 4:
@@ -281,7 +281,7 @@ func init() {
 		ID:    "C16",
 		Level: "exploration",
 		Rule: "engine P over (graphic x destination x rectangle x transformation): every one-path program over 10 shapes (L, l, H/V, Q+T, q+t, C+S, c+s, A, a, sub-paths via Y and y) x 6 fills (opaque via palette index, translucent via a rounding-sensitive blend, linear-pad gradient, radial-reflect gradient, initial content of a colour register, palette index and register reference with high bits set after the like-numbered register was overwritten) x sizes {1,7,64,512,513,600,40x100,100x40,511x3} (thorough: every n x n for n <= 17, 510..514 around the threshold incl. 511x513 / 513x511, 2x3, 3x514, 1024x16, 256x700, 700x256) x {RGBA, Alpha} x {Src, Over}, and every ordered pair of one-path programs (3600) at sizes 64 and 7, rendered with raster/vec. " +
-			"Relations, pixel buffers byte for byte: (a) rectangle at offset (7,9) inside a larger image with sentinel margin == image of its own, margin untouched; (b) viewBox, coordinates and radii x 2^k, gradient matrix linear part x 2^-k, k in {-3,-1,+2,+6} (thorough: 14 exponents in -8..8 for sizes <= 100) == original; (c) colours via palette index / register reference / blend == direct colours; (d) [P1,P2] with operator Src == P1 with Src then P2 with Over by a fresh Renderer; (r) relation (c) on a Renderer that rendered another graphic with the same palette before; (e) relation (c) between the two graphics in byte form (Encoder -> Decode -> Renderer). " +
+			"Relations, pixel buffers byte for byte: (a) rectangle at offset (7,9) inside a larger image with sentinel margin == image of its own, margin untouched; (b) viewBox, coordinates and radii x 2^k, gradient matrix linear part x 2^-k, k in {-5,-1,+2,+8} (thorough: 14 exponents in -8..8 for sizes <= 100) == original; (c) colours via palette index / register reference / blend == direct colours; (d) [P1,P2] with operator Src == P1 with Src then P2 with Over by a fresh Renderer; (r) relation (c) on a Renderer that rendered another graphic with the same palette before; (e) relation (c) between the two graphics in byte form (Encoder -> Decode -> Renderer). " +
 			"distinct = hash of the rendered pixels; non-trivial = render that produced at least one non-zero and one zero pixel",
 		Assumptions: []string{"golang.org/x/image/vector is a trusted dependency", "every float operation of the renderer commutes exactly with power-of-two scaling in the absence of overflow/underflow (the exponent set avoids both)"},
 		Units:       func(tier string) int { return n1 + n1 },
@@ -302,7 +302,7 @@ func init() {
 							if sz[0] <= 100 {
 								c16Check(w, &c16Case{Prog: p, W: sz[0], H: sz[1], Alpha: alpha, Op: op, Rel: "e"})
 							}
-							ks := []int{-3, -1, 2, 6}
+							ks := []int{-5, -1, 2, 8}
 							if w.Thorough && !big {
 								ks = []int{-8, -6, -5, -4, -3, -2, -1, 1, 2, 3, 4, 5, 6, 8}
 							}
